@@ -262,7 +262,10 @@ Definition mon_step (m : mon) (st : step) : option mon :=
   | SDeliver idxs _ o before after applied | SReplay idxs o before after applied =>
       let all_dup := forallb (fun i => memN i (m_delivered m)) idxs in
       let dok := deltas_ok o (length idxs) in
-      if all_dup && negb (dok && (before =? after)) then None
+      (* an aborted batch (a rider for a foreign hash slot) answers nothing and changes nothing *)
+      let aborted := match bo_out o with BFatal _ => true | BOk _ => false end in
+      if all_dup && negb ((dok || aborted) && (before =? after)) then None
+      else if aborted && negb (before =? after) then None
       (* a delta answered ok has its durable applied record on the target *)
       else if dok && negb (forallb (fun i => memN i applied) idxs) then None
       else
